@@ -32,6 +32,8 @@ impl<T: Qcow2IoOps> Qcow2Dev<T> {
         let res = self.file.fallocate(offset, len, flags).await;
         match res {
             Err(_) => {
+                #[cfg(qcow2_rs_verif)]
+                crate::verif::probe("punch:fallback-to-zero-write");
                 log::trace!("discard fallback off {:x} len {}", offset, len);
                 let zero_data = zeroed_io_buf(len);
                 self.call_write(offset, &zero_data).await
@@ -109,6 +111,8 @@ impl<T: Qcow2IoOps> Qcow2Dev<T> {
             .add_cache_slice(&self.l2cache, l1_e, key, slice_off, slice)
             .await?;
         if let Some(to_kill) = to_kill {
+            #[cfg(qcow2_rs_verif)]
+            crate::verif::probe("evict:dirty-l2-slices");
             log::warn!("add_l2_slice: cache eviction, slices {}", to_kill.len());
             // figure exact dependency on refcount cache & reftable entries
             self.flush_refcount().await?;
@@ -197,6 +201,8 @@ impl<T: Qcow2IoOps> Qcow2Dev<T> {
                 if e.is_dirty() {
                     // For any cache update and set_dirty(true), write lock
                     // has to be obtained
+                    #[cfg(qcow2_rs_verif)]
+                    crate::verif::probe("fce:wait-slice-read");
                     let cache = e.value().read().await;
 
                     // clearing dirty now since cache update won't happen now,
@@ -208,10 +214,14 @@ impl<T: Qcow2IoOps> Qcow2Dev<T> {
                             let key = cache_off >> info.cluster_bits();
 
                             if let Entry::Vacant(slot) = cluster_map.entry(key) {
+                                #[cfg(qcow2_rs_verif)]
+                                crate::verif::probe("fce:wait-map-read");
                                 let cls_map = self.new_cluster.read().await;
                                 // keep this cluster locked, so that concurrent discard can
                                 // be avoided
                                 if let Some(cluster) = cls_map.get(&key) {
+                                    #[cfg(qcow2_rs_verif)]
+                                    crate::verif::probe("fce:wait-cluster-write");
                                     let mut locked_cls = cluster.write().await;
 
                                     log::debug!(
@@ -223,6 +233,8 @@ impl<T: Qcow2IoOps> Qcow2Dev<T> {
                                         // mark it as discarded, so others can observe it after
                                         // grabbing write lock
                                         *locked_cls = true;
+                                        #[cfg(qcow2_rs_verif)]
+                                        crate::verif::probe("fce:zero-new-meta-cluster");
                                         f_vec.push(self.call_fallocate(
                                             info.cluster_round_down(cache_off),
                                             info.cluster_size(),
@@ -254,6 +266,8 @@ impl<T: Qcow2IoOps> Qcow2Dev<T> {
                 .into_iter()
                 .map(|(cls_key, _locked_cls)| cls_key)
                 .collect();
+            #[cfg(qcow2_rs_verif)]
+            crate::verif::probe("fce:wait-map-write");
             let mut cls_map = self.new_cluster.write().await;
 
             for cls_key in keys {
@@ -261,6 +275,8 @@ impl<T: Qcow2IoOps> Qcow2Dev<T> {
             }
         }
 
+        #[cfg(qcow2_rs_verif)]
+        crate::verif::probe("fce:write-slices");
         let mut f_vec = Vec::new();
         for cache in cache_vec.iter() {
             log::trace!(
@@ -409,6 +425,8 @@ impl<T: Qcow2IoOps> Qcow2Dev<T> {
     //// flush refcount table and block dirty data to disk
     pub(crate) async fn flush_refcount(&self) -> Qcow2Result<()> {
         loop {
+            #[cfg(qcow2_rs_verif)]
+            crate::verif::probe("flush_refcount:wait-rt-read");
             let rt = &*self.reftable.read().await;
             let done = self
                 .flush_meta_generic(rt, &self.refblock_cache, |off| {
@@ -442,7 +460,11 @@ impl<T: Qcow2IoOps> Qcow2Dev<T> {
 
     /// flush meta data in ram to disk
     pub async fn flush_meta(&self) -> Qcow2Result<()> {
+        #[cfg(qcow2_rs_verif)]
+        crate::verif::probe("flush_meta:wait-flush-lock");
         let _flush_lock = self.flush_lock.lock().await;
+        #[cfg(qcow2_rs_verif)]
+        crate::verif::probe("flush_meta:got-flush-lock");
 
         log::debug!("flush_meta: entry");
 
@@ -469,6 +491,8 @@ impl<T: Qcow2IoOps> Qcow2Dev<T> {
             // read lock prevents update on l1 table, meantime
             // normal read and cache-hit write can go without any
             // problem
+            #[cfg(qcow2_rs_verif)]
+            crate::verif::probe("flush_meta:wait-l1-read");
             let l1 = &*self.l1table.read().await;
 
             let done = self
